@@ -27,7 +27,7 @@ STUBS = ["vp.memfs mounted (file_parser.open, os façade, finder.tqdm identity, 
 ASSUMPTIONS = ["-p filtering is modelled as restricting the configuration dict to the selected platforms (what __main__/tree do after "
                "loading); the TOML/CLI parsing around it is outside the claim",
                "once the symbolic bits are decided all data is concrete and the real code runs untraced on that leaf"]
-BOUNDS = {"quick": "7 scenario templates x 3 commands; every assignment of commands to 3 platforms, 2 of the 6 orders, 3 of the 8 platform subsets, 2 -D bits",
+BOUNDS = {"quick": "8 scenario templates x 3 commands; every assignment of commands to 3 platforms, 2 of the 6 orders, 3 of the 8 platform subsets, 2 -D bits",
           "thorough": "all 6 orders and all 8 subsets"}
 EXPLANATION = ("Assignment, order, subset and -D bits are bounded symbolic values exhausted by CrossHair; on each leaf the real finder.find is run "
                "on the full configuration, on each command alone, on the permuted and on the filtered configuration, and all results are "
@@ -122,7 +122,22 @@ def t_same_file_inc(d):
     return files, cmds
 
 
-TEMPLATES = {"same_file_inc": t_same_file_inc, "inc_paths": t_inc_paths, "shared_define": t_shared_define, "pragma_once": t_pragma_once, "undef_cmdline": t_undef_cmdline,
+def t_computed_inc(d):
+    # the same `#include CFG` directive (one node of sel.h's tree) must be re-expanded for every command: CFG names a
+    # different header depending on the command's -D
+    files = {
+        "/r/a.c": ['#include "sel.h"', "#ifdef GPU_CFG", "@", "#endif", "#ifdef CPU_CFG", "@", "#endif"],
+        "/r/b.c": ["@", '#include "sel.h"', "#ifdef GPU_CFG", "@", "#else", "@", "#endif"],
+        "/r/sel.h": ["#ifdef USE_GPU", '#define CFG "cfg_gpu.h"', "#else", "#define CFG <cfg_cpu.h>", "#endif", "#include CFG", "@"],
+        "/r/cfg_gpu.h": ["#define GPU_CFG", "@"],
+        "/r/inc/cfg_cpu.h": ["#define CPU_CFG", "@", "@"],
+    }
+    cmds = [scen.entry("/r/a.c", ["USE_GPU"], ["/r/inc"]), scen.entry("/r/b.c", ["USE_GPU"] if d[0] else [], ["/r/inc"]),
+            scen.entry("/r/a.c", ["USE_GPU"] if d[1] else [], ["/r/inc"])]
+    return files, cmds
+
+
+TEMPLATES = {"computed_inc": t_computed_inc, "same_file_inc": t_same_file_inc, "inc_paths": t_inc_paths, "shared_define": t_shared_define, "pragma_once": t_pragma_once, "undef_cmdline": t_undef_cmdline,
              "same_file_two_defs": t_same_file_two_defs, "two_dirs": t_two_dirs}
 PLATS = ["p", "q", "r"]
 
@@ -256,5 +271,5 @@ CLAIM = ("For every assignment of three commands to up to three platforms, every
          "6 scenarios with shared headers (guards, #pragma once, #undef of command-line macros, same header from two directories), the "
          "full analysis equals the union of fresh single-command analyses, the reference preprocessor, its own permutations and the "
          "projection of itself - exhausted by CrossHair.")
-LEVEL_NOTE = ("Trusted: CrossHair/z3 for the enumeration, vp/memfs.py, vp/refs/ref_cpp.py (gcc -E on replay). Bounded: 7 templates, 3 commands, "
+LEVEL_NOTE = ("Trusted: CrossHair/z3 for the enumeration, vp/memfs.py, vp/refs/ref_cpp.py (gcc -E on replay). Bounded: 8 templates, 3 commands, "
               "3 platforms. CLI -p parsing is outside.")
